@@ -24,7 +24,7 @@ static int b_obj(const char* kind, const char* name, long arg, void** obj) {
   g_base = (uint64_t)strtoull(vrt_getenv("VRT_BARRIER_BASE", "0"), NULL, 10);
   b->counter = g_base;
   static const vrt_field_t f[] = {
-      {"ctr", offsetof(fiber_barrier_t, counter), sizeof(((fiber_barrier_t*)0)->counter), VD_U32, VF_NOEPOCH, 0}, /* scheduling point */
+      {"ctr", offsetof(fiber_barrier_t, counter), 1, VD_U8, VF_NOEPOCH, 0}, /* low byte: makes accesses scheduling points */
       {"counter", 0, 0, VD_CUSTOM, 0, dec_counter},
       {"q0", 0, 0, VD_CUSTOM, 0, dec_q0},
       {"tailf0", 0, 0, VD_CUSTOM, 0, dec_tailf0},
